@@ -2411,6 +2411,12 @@ class HelicalLattice(Lattice):
             self._mps_fix_u.append(mps_fix_u)
         self._mps_fix_u = tuple(self._mps_fix_u)
 
+    def mps_idx_fix_u(self, u=None):
+        # doc: see Lattice; as for the IrregularLattice, `_perm` has entries for sites not in the MPS
+        if u is not None:
+            return self._mps_fix_u[u]
+        return self._perm[self._perm != self._REMOVED]
+
     # the regular lattice has the same order for the MPS,
     # only the division into unit cells is different
     # hence we can just use the versions of the regular lattice.
